@@ -56,3 +56,20 @@ class _Plain:
         return value
 
 
+
+
+def legacy_ser(key, value):
+    """A legacy serializer= function (pre-serde API): tags non-bytes values."""
+    if isinstance(value, bytes):
+        return value, 0
+    return json.dumps(value).encode("ascii"), 7
+
+
+def legacy_deser(key, value, flags):
+    """The matching legacy deserializer= function."""
+    if flags == 7:
+        return json.loads(value)
+    return value
+
+
+FUNCS = {"legacy_ser": legacy_ser, "legacy_deser": legacy_deser}
